@@ -710,6 +710,20 @@ func c09CKKS(ctx *core.RunCtx) *c09Scheme {
 			c09Aux = canonHashCt(cp.Parameters, outs[1-k>>1])
 			return nil
 		}},
+		{name: "lintrans.EvaluateSequential", op1: []int{vNone}, ks: []int{0, 1, 2, 3}, needDeg1: true, deg: degOne, call: func(e any, a *rlwe.Ciphertext, b any, k int, o *rlwe.Ciphertext) error {
+			// two transformations one after the other (each followed by a rescaling), in either order
+			lts := []cklt.LinearTransformation{cc.lts[k&1], cc.lts[2+(k&1)]}
+			if k>>1 == 1 {
+				lts[0], lts[1] = lts[1], lts[0]
+			}
+			return e.(*c09Sys).lt.EvaluateSequential(a, lts, o)
+		}, callNew: func(e any, a *rlwe.Ciphertext, b any, k int) (*rlwe.Ciphertext, error) {
+			lts := []cklt.LinearTransformation{cc.lts[k&1], cc.lts[2+(k&1)]}
+			if k>>1 == 1 {
+				lts[0], lts[1] = lts[1], lts[0]
+			}
+			return e.(*c09Sys).lt.EvaluateSequentialNew(a, lts)
+		}},
 		{name: "Average", op1: []int{vNone}, needDeg1: true, deg: degOne, call: func(e any, a *rlwe.Ciphertext, b any, k int, o *rlwe.Ciphertext) error {
 			return ev(e).Average(a, cp.LogMaxSlots()-2, o)
 		}},
